@@ -2,13 +2,16 @@
 
 pub mod c06;
 pub mod c09;
+pub mod c10;
 pub mod certs;
 pub mod chains;
 pub mod crls;
 pub mod csrs;
 pub mod imports;
 pub mod keymon;
+pub mod table;
 pub mod c13;
+pub mod c18;
 pub mod c20;
 
 use crate::ctx::Ctx;
@@ -19,7 +22,8 @@ pub fn certs_ku_lenient(v: &[u8]) -> Option<u16> {
 }
 
 /// Runs the monitor for `ctx.prop`; returns (rule describing cases / non-triviality, exhaustiveness note).
-pub fn dispatch(ctx: &Ctx, _extra: &[String]) -> (String, String) {
+pub fn dispatch(ctx: &Ctx, extra: &[String]) -> (String, String) {
+	let arg = |name: &str| -> Option<String> { extra.iter().find_map(|a| a.strip_prefix(&format!("{}=", name)).map(|s| s.to_string())) };
 	match ctx.prop.as_str() {
 		"C09" => {
 			c09::run(ctx);
@@ -40,6 +44,36 @@ pub fn dispatch(ctx: &Ctx, _extra: &[String]) -> (String, String) {
 			(
 				"case = one edit history (sequence of push/remove); exhaustive histories are enumerated (distinct by construction) and additionally the distinct reached states (hash of the model enumeration) are counted; a history is non-trivial when it has at least one operation".into(),
 				"all histories up to the stated length over 12 operations".into(),
+			)
+		},
+		#[cfg(all(feature = "crypto", feature = "ossl"))]
+		"C10" => {
+			let shard = arg("shard").and_then(|s| {
+				let mut it = s.split('/');
+				Some((it.next()?.parse().ok()?, it.next()?.parse().ok()?))
+			});
+			c10::run(ctx, shard.unwrap_or((0, 1)));
+			(
+				"case = one input offered to the parsing entry points (corpus member, structure-aware or byte-level mutant, PEM text mutant, random bytes, random text) or one hostile parameter set pushed through every generation entry point and accessor; distinct by hash of the input; an accepted input is also pushed through generation".into(),
+				String::new(),
+			)
+		},
+		#[cfg(all(feature = "crypto", feature = "ossl"))]
+		"C18" => {
+			match arg("cli") {
+				Some(p) => c18::run(ctx, std::path::Path::new(&p)),
+				None => ctx.inconclusive("no cli= argument"),
+			}
+			(
+				"case = one invocation of the real rustls-cert-gen binary in a fresh directory with a generated option set (two thirds valid, one third invalid in one of the three classes, plus directed base-name layouts); distinct by hash of the argument vector".into(),
+				String::new(),
+			)
+		},
+		"C15" | "C16" => {
+			table_dispatch(ctx, &arg);
+			(
+				"case = one entry of a table of certificate / CSR / CRL parameter sets with fixed keys, executed repeatedly (back to back, after unrelated calls, concurrently on T threads in seeded orders for M rounds, in P processes, in several build configurations); events are (case, phase, thread, round, hash of TBS, hash of output)".into(),
+				String::new(),
 			)
 		},
 		#[cfg(all(feature = "crypto", feature = "ossl"))]
@@ -291,5 +325,185 @@ fn c01_faults(ctx: &Ctx) {
 				}
 			}
 		}
+	}
+}
+
+/// C15 / C16 workers. Arguments (key=value): keys=<file> mode=gen-keys|c15|dump|cross proc=<n> events=<file>
+/// k=<cases> threads=<a,b,..> rounds=<m> other=<events file of the other back end> export=<dir>
+fn table_dispatch(ctx: &Ctx, arg: &dyn Fn(&str) -> Option<String>) {
+	let mode = arg("mode").unwrap_or_else(|| "c15".into());
+	let keys_path = std::path::PathBuf::from(arg("keys").unwrap_or_else(|| ctx.out_dir.join("keys.txt").to_string_lossy().to_string()));
+	if mode == "gen-keys" {
+		#[cfg(all(feature = "crypto", feature = "ossl"))]
+		{
+			if let Err(e) = table::gen_keys(&keys_path) {
+				ctx.inconclusive(&format!("key generation failed: {}", e));
+			}
+			ctx.count("eval:keys_generated");
+		}
+		#[cfg(not(all(feature = "crypto", feature = "ossl")))]
+		ctx.inconclusive("gen-keys needs a crypto build");
+		return;
+	}
+	let keys = if cfg!(miri) || mode == "miri" {
+		table::dummy_keys()
+	} else {
+		match table::load_keys(&keys_path) {
+			Ok(k) => k,
+			Err(e) => {
+				// a key that loads as another key in this back end is a C16 violation, anything else is a harness problem
+				if e.contains("loads as another key") {
+					ctx.violation("c16:key-exchange", &crate::ctx::CaseId::new("keys", ctx.seed, 0), &keys_path.to_string_lossy(), &e);
+				} else {
+					ctx.inconclusive(&format!("cannot load the key file: {}", e));
+				}
+				return;
+			},
+		}
+	};
+	let k: usize = arg("k").and_then(|s| s.parse().ok()).unwrap_or(if cfg!(miri) { 6 } else { ctx.scale(200, 2000) as usize });
+	let proc_id: u64 = arg("proc").and_then(|s| s.parse().ok()).unwrap_or(0);
+	let threads: Vec<usize> = arg("threads")
+		.map(|s| s.split(',').filter_map(|x| x.parse().ok()).collect())
+		.unwrap_or_else(|| if cfg!(miri) { vec![3] } else if ctx.quick() { vec![4, 16] } else { vec![2, 4, 16, 64] });
+	let rounds: usize = arg("rounds").and_then(|s| s.parse().ok()).unwrap_or(if cfg!(miri) { 1 } else { ctx.scale(3, 10) as usize });
+	let events_path = std::path::PathBuf::from(arg("events").unwrap_or_else(|| ctx.out_dir.join(format!("events-{}.jsonl", proc_id)).to_string_lossy().to_string()));
+	match mode.as_str() {
+		"dump" => {
+			// C16: execute the portable cases once and record TBS hashes (and artefacts for cross verification)
+			let iss = match table::issuers(&keys) {
+				Ok(i) => i,
+				Err(e) => return ctx.inconclusive(&format!("issuers: {}", e)),
+			};
+			let tab = table::table(ctx.seed, k, keys.len(), true);
+			let mut ev = Vec::new();
+			let mut arts = String::new();
+			for c in &tab {
+				let case = crate::ctx::CaseId::new("table", ctx.seed, c.idx as u64);
+				match table::exec(c, &keys, &iss) {
+					Err(e) => ctx.violation("c16:portable-case-fails", &case, &format!("{:?}", c), &e),
+					Ok(x) => {
+						ctx.count("eval:dumped");
+						ev.push(table::Event {
+							case: c.idx,
+							phase: "dump".into(),
+							thread: 0,
+							round: 0,
+							tbs: crate::util::fnv64(&x.tbs),
+							der: crate::util::fnv64(&x.der),
+							det: x.det,
+							t0: 0,
+							t1: 0,
+						});
+						if c.idx % 2 == 0 || matches!(c.kind, table::TKind::Csr { .. }) {
+							let kind = match c.kind {
+								table::TKind::Csr { .. } => "csr",
+								table::TKind::Crl { .. } => "crl",
+								_ => "cert",
+							};
+							let signer = match &c.kind {
+								table::TKind::Issued { issuer } | table::TKind::Crl { issuer, .. } => iss.keys[*issuer],
+								_ => c.key,
+							};
+							arts.push_str(&format!("{} {} {} {}\n", c.idx, kind, signer, crate::util::hex(&x.der)));
+						}
+					},
+				}
+			}
+			ctx.count_n("dist:portable_cases", tab.len() as u64);
+			table::write_events(&events_path, proc_id, crate::BACKEND, &ev, &tab.iter().map(|c| c.portable).collect::<Vec<_>>());
+			let _ = std::fs::write(events_path.with_extension("artefacts"), arts);
+			// export freshly generated keys of this back end for the other one to load
+			#[cfg(all(feature = "crypto", feature = "ossl"))]
+			if let Some(dir) = arg("export") {
+				let _ = std::fs::create_dir_all(&dir);
+				let mut lines = String::new();
+				for a in keymon::all_sigalgs() {
+					if let Some(alg) = crate::keys::rcgen_alg(a) {
+						if let Ok(kp) = rcgen::KeyPair::generate_for(alg) {
+							lines.push_str(&format!("{:?} {} {} {}\n", alg, crate::util::hex(&kp.serialize_der()), crate::util::hex(kp.public_key_raw()), crate::util::hex(kp.serialize_pem().as_bytes())));
+						}
+					}
+				}
+				let _ = std::fs::write(std::path::Path::new(&dir).join(format!("exported-{}.txt", crate::BACKEND)), lines);
+			}
+		},
+		#[cfg(all(feature = "crypto", feature = "ossl"))]
+		"cross" => {
+			// C16: verify the other back end's artefacts and load the keys it exported
+			let other = arg("other").unwrap_or_default();
+			let arts = std::fs::read_to_string(std::path::Path::new(&other).with_extension("artefacts")).unwrap_or_default();
+			for line in arts.lines() {
+				let f: Vec<&str> = line.split(' ').collect();
+				if f.len() != 4 {
+					continue;
+				}
+				let (idx, kind, signer, der) = (f[0].parse::<u64>().unwrap_or(0), f[1], f[2].parse::<usize>().unwrap_or(0), crate::util::unhex(f[3]).unwrap_or_default());
+				let case = crate::ctx::CaseId::new("cross", ctx.seed, idx);
+				let key = &keys[signer.min(keys.len() - 1)];
+				let spki = crate::ossl::spki_of_private(&key.pkcs8).unwrap_or_default();
+				let sig = crate::keys::sigalg_of(key.kp.algorithm());
+				ctx.count("eval:cross_verified");
+				match crate::x509::split_signed_raw(&der, true).and_then(|(tbs, _, s)| crate::ossl::verify_raw(sig, &spki, &tbs, &s)) {
+					Ok(true) => {},
+					other => ctx.violation("c16:cross-verify-openssl", &case, line, &format!("artefact of the other back end does not verify: {:?}", other)),
+				}
+				if kind == "csr" {
+					match crate::guard(|| rcgen::CertificateSigningRequestParams::from_der(&pki_types::CertificateSigningRequestDer::from(der.clone())).map(|_| ())) {
+						Ok(Ok(())) => ctx.count("eval:cross_csr_accepted"),
+						other => {
+							// requests with custom extensions / non-standard EKUs are documented as unsupported by the parser
+							let msg = format!("{:?}", other);
+							if !msg.contains("UnsupportedExtension") {
+								ctx.violation("c16:cross-csr-rejected", &case, line, &msg);
+							}
+						},
+					}
+				}
+			}
+			if let Some(dir) = arg("export") {
+				let other_name = if crate::BACKEND == "ring" { "aws" } else { "ring" };
+				let t = std::fs::read_to_string(std::path::Path::new(&dir).join(format!("exported-{}.txt", other_name))).unwrap_or_default();
+				for (i, line) in t.lines().enumerate() {
+					let f: Vec<&str> = line.split(' ').collect();
+					if f.len() != 4 {
+						continue;
+					}
+					let case = crate::ctx::CaseId::new("key-exchange", ctx.seed, i as u64);
+					let alg = match table::alg_by_name(f[0]) {
+						Some(a) => a,
+						None => {
+							ctx.count("exported_keys_of_algorithms_not_in_this_back_end");
+							continue;
+						},
+					};
+					let der = crate::util::unhex(f[1]).unwrap_or_default();
+					let raw = crate::util::unhex(f[2]).unwrap_or_default();
+					let pem = String::from_utf8(crate::util::unhex(f[3]).unwrap_or_default()).unwrap_or_default();
+					ctx.count("eval:exchanged_keys");
+					for (how, r) in [
+						("try_from", crate::guard(|| rcgen::KeyPair::try_from(der.as_slice()).map_err(|e| e.to_string()))),
+						("from_pem", crate::guard(|| rcgen::KeyPair::from_pem(&pem).map_err(|e| e.to_string()))),
+					] {
+						match r {
+							Ok(Ok(kp)) => {
+								// the hash of an RSA signature algorithm is not a property of the key
+								let same_alg = kp.algorithm() == alg || (f[0].contains("RSA") && format!("{:?}", kp.algorithm()).contains("RSA"));
+								if kp.public_key_raw() != raw.as_slice() || !same_alg {
+									ctx.violation("c16:key-exchange", &case, line, &format!("{}: loads as {:?} with another public key or algorithm", how, kp.algorithm()));
+								}
+							},
+							other => ctx.violation("c16:key-exchange", &case, line, &format!("{}: a key exported by the {} back end does not load: {:?}", how, other_name, other.map(|x| x.map(|_| ())))),
+						}
+					}
+				}
+			}
+		},
+		_ => {
+			let ev = table::run_c15(ctx, &keys, k, &threads, rounds, proc_id);
+			let portable_only = !cfg!(feature = "crypto");
+			let tab = table::table(ctx.seed, k, keys.len(), portable_only);
+			table::write_events(&events_path, proc_id, crate::BACKEND, &ev, &tab.iter().map(|c| c.portable).collect::<Vec<_>>());
+		},
 	}
 }
